@@ -247,7 +247,7 @@ Plan generate_plan(const std::string& profile_in, uint64_t seed)
     p.cfg.profile = profile_in;
     // profile = base[2][_disk|_pure]
     std::string profile = profile_in;
-    bool disk = false, pure = false, only_v2 = false;
+    bool disk = false, pure = false, only_v2 = false, aud = false;
     auto strip = [&](const std::string& suf) {
         if (profile.size() > suf.size() &&
             profile.compare(profile.size() - suf.size(), suf.size(), suf) == 0)
@@ -257,6 +257,7 @@ Plan generate_plan(const std::string& profile_in, uint64_t seed)
         }
         return false;
     };
+    aud = strip("_audit");
     disk = strip("_disk");
     pure = strip("_pure");
     only_v2 = strip("2");
@@ -289,6 +290,13 @@ Plan generate_plan(const std::string& profile_in, uint64_t seed)
     }
     if (pure)
         p.cfg.checks |= CK_PURITY;
+    if (aud)
+    {
+        p.cfg.on_disk = true;
+        p.cfg.checks |= CK_AUDIT;
+    }
+    else
+        p.cfg.checks &= ~(uint32_t)CK_AUDIT;
     return p;
 }
 
